@@ -1,8 +1,79 @@
-(* Properties/C16.v -- property theorems for C16; statements only. *)
-From RV Require Import Base.Prelude Name.NameModel Name.NameSpec Name.NameProofs.
+(* Properties/C16.v -- property theorems for C16; statements only.
+   Each is closed by [exact lemma] and followed by Print Assumptions. *)
+From RV Require Import Base.Prelude Base.Cursor Name.NameModel Name.NameSpec Name.NameProofs.
+
+(* every constructor returns a well-formed name *)
+Theorem C16_from_labels_wf : forall ls n,
+  Forall wf_label ls -> from_labels ls = Some n -> wf_name n /\ labels n = ls.
+Proof. exact from_labels_wf. Qed.
+Print Assumptions C16_from_labels_wf.
+
+(* input violating the limits is rejected, and only that *)
+Theorem C16_from_labels_complete : forall ls,
+  Forall wf_label ls -> (from_labels ls = None <-> ~ wf_labels ls).
+Proof. exact from_labels_complete. Qed.
+Print Assumptions C16_from_labels_complete.
+
+(* dotted text: accepted exactly when it is "." or dot-terminated non-empty chunks within the limits *)
+Theorem C16_dotted_complete : forall s n,
+  Forall scalar s -> (from_dotted_string s = Some n <-> dotted_spec s n).
+Proof. exact dotted_complete. Qed.
+Print Assumptions C16_dotted_complete.
+
+Theorem C16_dotted_wf : forall s n,
+  Forall scalar s -> from_dotted_string s = Some n -> wf_name n.
+Proof. exact dotted_wf. Qed.
+Print Assumptions C16_dotted_wf.
+
+(* the wire decoder, through any pointer chain *)
+Theorem C16_wire_wf : forall hops bs c n c',
+  Forall (fun b => b < 256) bs -> decode_name hops bs c = Ok (n, c') -> wf_name n.
+Proof. exact wire_wf. Qed.
+Print Assumptions C16_wire_wf.
+
+(* joining a relative name to an origin *)
+Theorem C16_join : forall o s n,
+  wf_name o -> Forall scalar s -> from_relative_dotted_string o s = Some n ->
+  wf_name n /\ (ends_with_dot s = false -> is_suffix (labels o) (labels n)).
+Proof. exact join_wf. Qed.
+Print Assumptions C16_join.
+
+Theorem C16_make_subdomain : forall a o n,
+  wf_name a -> wf_name o -> make_subdomain_of a o = Some n ->
+  wf_name n /\ labels n = removelast (labels a) ++ labels o.
+Proof. exact make_subdomain_wf. Qed.
+Print Assumptions C16_make_subdomain.
+
+(* ASCII letter case is irrelevant: text differing only in case gives the same name
+   (hence equal, hashing alike, selecting the same zone and cache entry) *)
+Theorem C16_case_insensitive : forall s s',
+  same_modulo_case s s' -> from_dotted_string s = from_dotted_string s'.
+Proof. exact dotted_case_insensitive. Qed.
+Print Assumptions C16_case_insensitive.
+
+Theorem C16_label_case_insensitive : forall os os',
+  map lower os = map lower os' -> label_try_from os = label_try_from os'.
+Proof. exact label_case_insensitive. Qed.
+Print Assumptions C16_label_case_insensitive.
+
+(* ASCII dot-free names read back from their dotted text *)
+Theorem C16_dotted_roundtrip : forall n,
+  wf_name n -> ascii_nodot n -> from_dotted_string (to_dotted_string n) = Some n.
+Proof. exact dotted_roundtrip. Qed.
+Print Assumptions C16_dotted_roundtrip.
 
 (* the subdomain relation coincides with label-wise suffix *)
 Theorem C16_subdomain_is_suffix : forall a b : dname,
   is_subdomain_of a b = true <-> is_suffix (labels b) (labels a).
 Proof. exact subdomain_is_suffix. Qed.
 Print Assumptions C16_subdomain_is_suffix.
+
+(* zone selection: the zone returned is the one whose apex is the longest configured
+   suffix of the name *)
+Theorem C16_zones_get_longest_suffix : forall (Z : Type) (zs : list (dname * Z)) n z,
+  wf_name n -> zones_get zs n = Some z ->
+  exists k, In (k, z) zs /\ is_suffix (labels k) (labels n) /\
+    forall k' z', In (k', z') zs -> wf_name k' -> is_suffix (labels k') (labels n) ->
+                  (length (labels k') <= length (labels k))%nat.
+Proof. exact zones_get_longest_suffix. Qed.
+Print Assumptions C16_zones_get_longest_suffix.
